@@ -240,17 +240,17 @@ T('C03', 'twin-new-sanity-assert', MG, '            decisions.onesided(path, d0,
 
 # ------------------------------------------------------------------------------------------ C05
 M('C05', 'agreement-test-after-P/P-arm', MG,
-  '        # Exactly the same modifications\n        elif d0 == d1:\n            decisions.agreement(path, d0, d1)\n\n        # Should always agree above because of chunking\n        elif chunktype == "R/R":',
-  '        # Should always agree above because of chunking\n        elif chunktype == "R/R" and d0 != d1:', 'R05.1',
-  edits=[(MG, '        elif chunktype in ("AR/A", "A/AR", "A/A", "AR/AR"):', '        elif d0 == d1:\n            decisions.agreement(path, d0, d1)\n        elif chunktype in ("AR/A", "A/AR", "A/A", "AR/AR"):')])
+  '        # Exactly the same modifications\n        elif strict_equal(d0, d1):\n            decisions.agreement(path, d0, d1)\n\n        # Should always agree above because of chunking\n        elif chunktype == "R/R":',
+  '        # Should always agree above because of chunking\n        elif chunktype == "R/R" and not strict_equal(d0, d1):', 'R05.1',
+  edits=[(MG, '        elif chunktype in ("AR/A", "A/AR", "A/A", "AR/AR"):', '        elif strict_equal(d0, d1):\n            decisions.agreement(path, d0, d1)\n        elif chunktype in ("AR/A", "A/AR", "A/A", "AR/AR"):')])
 M('C05', 'onesided-arm-consults-strategy', MG,
   '        elif not (bool(d0) and bool(d1)):\n            decisions.onesided(path, d0, d1)',
   '        elif not (bool(d0) and bool(d1)):\n            if list_strategy == "use-base":\n                decisions.base(path, d0, d1)\n            else:\n                decisions.onesided(path, d0, d1)', 'R05.1')
 M('C05', 'onesided-defaults-to-conflict', DEC, '    def onesided(self, path, local_diff, remote_diff, conflict=False):', '    def onesided(self, path, local_diff, remote_diff, conflict=True):', 'R05.1')
 M('C05', 'dict-agreement-after-add-arm', MG,
-  '        elif ld == rd:\n            # If inserting/replacing/patching produces the same value, just use\n            # it\n            decisions.agreement(path, ld, rd)\n        elif ld.op == DiffOp.ADD:',
+  '        elif strict_equal(ld, rd):\n            # If inserting/replacing/patching produces the same value, just use\n            # it\n            decisions.agreement(path, ld, rd)\n        elif ld.op == DiffOp.ADD:',
   '        elif ld.op == DiffOp.ADD:', 'R05.1',
-  edits=[(MG, '        elif ld.op == DiffOp.REPLACE:\n            # (7)', '        elif ld == rd:\n            decisions.agreement(path, ld, rd)\n        elif ld.op == DiffOp.REPLACE:\n            # (7)')])
+  edits=[(MG, '        elif ld.op == DiffOp.REPLACE:\n            # (7)', '        elif strict_equal(ld, rd):\n            decisions.agreement(path, ld, rd)\n        elif ld.op == DiffOp.REPLACE:\n            # (7)')])
 M('C05', 'union-without-conflict-guard', STR,
   "        for d in decisions:\n            if d.conflict:\n                # do not to apply to subdecisions on dicts\n                if not isinstance(",
   "        for d in decisions:\n            if True:\n                # do not to apply to subdecisions on dicts\n                if not isinstance(", 'R05.2')
@@ -272,7 +272,9 @@ M('C05', 'remote-deleted-marker-not-conflicted', STR,
   '        decisions.remote_then_local(path, local_diff, remote_diff, conflict=False, strategy=strategy)', 'R05.3')
 T('C05', 'twin-rename-ld-rd', MG, 'ld, rd = counterdiff, thediff', 'ld, rd = (counterdiff, thediff)')
 T('C05', 'twin-reorder-conjuncts', MG, 'if p0[0].op == DiffOp.REMOVERANGE and is_transient:', 'if is_transient and p0[0].op == DiffOp.REMOVERANGE:')
-T('C05', 'twin-compare-operands-swapped', MG, '        elif d0 == d1:\n            decisions.agreement(path, d0, d1)', '        elif d1 == d0:\n            decisions.agreement(path, d0, d1)')
+T('C05', 'twin-compare-operands-swapped', MG, '        elif strict_equal(d0, d1):\n            decisions.agreement(path, d0, d1)', '        elif strict_equal(d1, d0):\n            decisions.agreement(path, d0, d1)')
+M('C05', 'agreement-by-loose-equality', MG, '        elif strict_equal(ld, rd):\n', '        elif ld == rd:\n', 'R05.6')
+M('C05', 'conflict-assert-by-loose-inequality', DEC, "    def similar_insert(self, path, local_diff, remote_diff, similar_insert, strategy=None):\n        assert local_diff and remote_diff, 'should have two diffs for conflicted merge decisions'\n        assert not strict_equal(local_diff, remote_diff), 'agreed merges should not be conflicted'" if False else "        assert not strict_equal(local_diff, remote_diff), 'agreed merges should not be conflicted'\n", "        assert local_diff != remote_diff, 'agreed merges should not be conflicted'\n", 'R05.6', count=3)
 T('C05', 'twin-mirror-arms-swapped-order', MG,
   '        elif chunktype in ("A/P", "A/R"):\n            action = decisions.tryresolve(path, d0, d1, item_strategy)\n            if not action:\n                decisions.local_then_remote(path, d0, d1, conflict=True)\n        elif chunktype in ("P/A", "R/A"):\n            action = decisions.tryresolve(path, d0, d1, item_strategy)\n            if not action:\n                decisions.remote_then_local(path, d0, d1, conflict=True)\n',
   '        elif chunktype in ("R/A", "P/A"):\n            action = decisions.tryresolve(path, d0, d1, item_strategy)\n            if not action:\n                decisions.remote_then_local(path, d0, d1, conflict=True)\n        elif chunktype in ("A/R", "A/P"):\n            action = decisions.tryresolve(path, d0, d1, item_strategy)\n            if not action:\n                decisions.local_then_remote(path, d0, d1, conflict=True)\n')
@@ -499,7 +501,7 @@ M('C01', 'nbdiff-arguments-swapped', 'nbdime/nbdiffapp.py', '    d = diff_notebo
 T('C01', 'twin-revive-inline', 'nbdime/nbpatchapp.py', '        diff = json.load(patch_file)\n    diff = to_diffentry_dicts(diff)\n', '        diff = to_diffentry_dicts(json.load(patch_file))\n')
 
 # ------------------------------------------------------------------------------------------ C04
-M('C04', 'merged-id-is-a-dict', STR, '                # recorded here: the merged cell keeps the local one\n                cell[k] = lcell[k]\n', '                cell[k] = {"local_id": lcell[k], "remote_id": rcell[k]}\n', 'R04.1')
+M('C04', 'merged-id-is-a-dict', STR, '                cell[k] = lcell[k] if k in lcell else rcell[k]\n', '                cell[k] = {"local_id": lcell.get(k), "remote_id": rcell.get(k)}\n', 'R04.1')
 M('C04', 'execution-count-empty-string', STR, "            elif k == 'execution_count':\n                cell[k] = None  # Clear", "            elif k == 'execution_count':\n                cell[k] = \"\"  # Clear", 'R04.1')
 M('C04', 'outputs-cleared-to-none', STR, "            elif k == 'outputs':\n                cell[k] = []", "            elif k == 'outputs':\n                cell[k] = None", 'R04.1')
 M('C04', 'cleared-list-becomes-none', DEC, '        # Clearing e.g. an outputs list means setting it to an empty list\n        return []', '        # Clearing e.g. an outputs list means setting it to an empty list\n        return None', 'R04.1')
@@ -508,7 +510,7 @@ M('C04', 'marker-output-unknown-field', STR, '    return nbformat.v4.new_output(
 M('C04', 'marker-cells-always-with-id', STR, '    with_id = any(\'id\' in c for c in list(base_cells) + lcells + rcells)\n', '    with_id = True\n', 'R04.2')
 M('C04', 'marker-id-never-stripped', STR, '    if not with_id:\n        # Cell ids only exist from notebook format 4.5 on\n        cell.pop(\'id\', None)\n', '', 'R04.2')
 M('C04', 'apply-returns-plain-dict', DEC, '    merged = nbformat.from_dict(merged)\n    return merged', '    return merged', 'R04.3')
-T('C04', 'twin-id-from-remote', STR, '                # recorded here: the merged cell keeps the local one\n                cell[k] = lcell[k]\n', '                cell[k] = rcell[k]\n')
+T('C04', 'twin-id-from-remote', STR, '                cell[k] = lcell[k] if k in lcell else rcell[k]\n', '                cell[k] = rcell[k] if k in rcell else lcell[k]\n')
 T('C04', 'twin-metadata-dict-call-free', STR, '                cell[k] = {\n                    "local_metadata": lcell[k],\n                    "remote_metadata": rcell[k],\n                }',
   '                cell[k] = {"local_metadata": lcell[k], "remote_metadata": rcell[k], "note": "conflict"}')
 
@@ -584,7 +586,13 @@ T('C15', 'twin-ts-cleared-value-null-first', TSDEC,
 # R03.10
 M('C03', 'attachments-looked-up-before-ops', STR, '            base = attachments.get(key)\n', '            base = attachments[key]\n', 'R03.10')
 M('C03', 'outputs-indexed-at-insertion-point', STR, 'outputs[key] if key < len(outputs) else None', 'outputs[key] if outputs else None', 'R03.10')
-M('C03', 'clear-on-optional-metadata-flag', MNB, '        "/cells/*/cell_type": "fail",\n', '        "/cells/*/cell_type": "fail",\n        "/cells/*/metadata/collapsed": "clear",\n', 'R03.10')
+M('C04', 'clear-on-optional-metadata-flag', MNB, '        "/cells/*/cell_type": "fail",\n', '        "/cells/*/cell_type": "fail",\n        "/cells/*/metadata/collapsed": "clear",\n', 'R04.1')
+M('C03', 'clear-looks-base-up-unguarded', DEC, "            if isinstance(base, dict) and key not in base:\n                # Added on both sides with different values: add it cleared\n                added = (decision.local_diff or decision.remote_diff)[0].value\n                return [op_add(key, make_cleared_value(added))]\n", "", 'R03.10')
+M('C03', 'id-read-from-local-cell-only', STR, '                cell[k] = lcell[k] if k in lcell else rcell[k]\n', '                cell[k] = lcell[k]\n', 'R03.17')
+M('C03', 'resolver-asserts-before-path-filter', STR, "        if d.common_path != ('cells',):\n", "        assert d.local_diff and d.remote_diff\n        if d.common_path != ('cells',):\n", 'R03.18')
+M('C03', 'collector-chains-none-diffs', STR, "        local_diff.extend(ld or ())\n", "        local_diff.extend(ld)\n", 'R03.19')
+M('C03', 'patch-level-compared-with-itself', STR, "    if n == len(common_path) or not diff:", "    if n == len(target_path) or not diff:", 'R03.20')
+T('C03', 'twin-collector-none-as-empty-list', STR, "        local_diff.extend(ld or ())\n", "        local_diff.extend(ld or [])\n")
 T('C03', 'twin-outputs-bound-written-other-way', STR, 'outputs[key] if key < len(outputs) else None', 'outputs[key] if len(outputs) > key else None')
 T('C03', 'twin-attachments-guarded-lookup', STR, '            base = attachments.get(key)\n', '            base = attachments[key] if key in attachments else None\n')
 
